@@ -327,7 +327,7 @@ theorem branch_of_pre {env : Env} {fns : List N} {B : Nat} {rest : List N} (h : 
   intro st st' e hout hr
   rw [hf] at hr
   obtain ⟨a, b, err, he, h1, h2⟩ := h prev root v loc st st' e hout hr hden
-  exact ⟨a, b, Or.inr ⟨err, he, h1, fun hg => h2 (by rw [← hD]; exact hg)⟩⟩
+  exact ⟨a, b, Or.inr ⟨err, he, h1, fun hg => h2 (by show den env rest root v ≠ []; rw [← hD]; exact hg)⟩⟩
 
 theorem flatMap_ne_nil {α β : Type} {l : List α} {f : α → List β} (h : l.flatMap f ≠ []) : ∃ x ∈ l, f x ≠ [] := by
   apply Classical.byContradiction
@@ -359,6 +359,477 @@ theorem loop_node {env : Env} {fns : List N} {B : Nat} (hB : FnBound fns B) {res
     exact List.flatMap_eq_nil_iff.mp hden x hx
   obtain ⟨a, b, err, he, h1, h2⟩ := group_err hB f (fun y => D y ≠ []) xs hb i hi st st' e hout hrun
   exact ⟨a, b, err, he, h1, fun hg => h2 (flatMap_ne_nil hg)⟩
+
+/-! ### navigation nodes -/
+
+section nodes
+variable {env : Env} {fns : List N} {B : Nat} {rest : List N}
+
+theorem root_err (i : Info) (h : PreErr env fns B rest) : PreErr env fns B (.root i :: rest) := by
+  intro prev root cur aloc st st' e hout hr hden
+  simp only [List.cons_append, retrieve] at hr
+  simp only [List.cons_append, den] at hden ⊢
+  exact h i root root none st st' e hout hr hden
+
+theorem cur_err (i : Info) (h : PreErr env fns B rest) : PreErr env fns B (.cur i :: rest) := by
+  intro prev root cur aloc st st' e hout hr hden
+  simp only [List.cons_append, retrieve] at hr
+  simp only [List.cons_append, den] at hden ⊢
+  exact h i root cur none st st' e hout hr hden
+
+theorem child_err (i : Info) (k : String) (hi : B < i.conn.utf8ByteSize) (h : PreErr env fns B rest) :
+    PreErr env fns B (.child i k :: rest) := by
+  intro prev root cur aloc st st' e hout hr hden
+  cases cur with
+  | obj kvs =>
+    simp only [List.cons_append, retrieve] at hr
+    simp only [List.cons_append, den] at hden ⊢
+    cases hl : Val.lookup k kvs with
+    | none =>
+      rw [hl] at hr
+      exact imm_err hout ⟨[], by simp⟩ hr hi _ (by simp)
+    | some v =>
+      rw [hl] at hr hden
+      exact h i root v _ st st' e hout hr hden
+  | null | bool _ | num _ | jnum _ | str _ | arr _ | opq _ _ =>
+    simp only [List.cons_append, retrieve] at hr
+    simp only [den]
+    exact imm_err hout ⟨[], by simp⟩ hr hi _ (by simp)
+
+theorem wild_err (hB : FnBound fns B) (i : Info) (hi : B < i.conn.utf8ByteSize) (h : PreErr env fns B rest) :
+    PreErr env fns B (.wild i :: rest) := by
+  intro prev root cur aloc st st' e hout hr hden
+  cases cur with
+  | obj kvs =>
+    simp only [List.cons_append, retrieve] at hr
+    simp only [List.cons_append, den] at hden ⊢
+    exact loop_node hB h _ (fun kv : String × Val => den env (rest ++ fns) root kv.2)
+      (fun kv : String × Val => den env rest root kv.2) (sortKV kvs) i root
+      (fun x _ => ⟨x.2, ext aloc (.key x.1), fun _ => rfl, rfl, rfl⟩) i hi st st' e hout hr hden
+  | arr xs =>
+    simp only [List.cons_append, retrieve] at hr
+    simp only [List.cons_append, den] at hden ⊢
+    rw [← zipIdx_flatMap_fst' (fun x => den env (rest ++ fns) root x) xs 0] at hden
+    rw [← zipIdx_flatMap_fst' (fun x => den env rest root x) xs 0]
+    exact loop_node hB h _ (fun xi : Val × Nat => den env (rest ++ fns) root xi.1)
+      (fun xi : Val × Nat => den env rest root xi.1) xs.zipIdx i root
+      (fun x _ => ⟨x.1, ext aloc (.idx x.2), fun _ => rfl, rfl, rfl⟩) i hi st st' e hout hr hden
+  | null | bool _ | num _ | jnum _ | str _ | opq _ _ =>
+    simp only [List.cons_append, retrieve] at hr
+    simp only [den]
+    exact imm_err hout ⟨[], by simp⟩ hr hi _ (by simp)
+
+theorem desc_err (hB : FnBound fns B) (i : Info) (mr lr : Bool) (hi : B < i.conn.utf8ByteSize)
+    (h : PreErr env fns B rest) : PreErr env fns B (.desc i mr lr :: rest) := by
+  intro prev root cur aloc st st' e hout hr hden
+  simp only [List.cons_append, retrieve] at hr
+  simp only [List.cons_append, den] at hden ⊢
+  by_cases hc : cur.isContainer = true
+  · rw [if_pos hc] at hr
+    rw [← containersLoc_fst cur (aloc.getD []),
+      ← filter_map_fst' (fun c => if isObj c then mr else lr)
+        (fun cl : Val × Loc => den env (rest ++ fns) root cl.1) (fun c => den env (rest ++ fns) root c) (fun _ => rfl)] at hden
+    rw [← containersLoc_fst cur (aloc.getD []),
+      ← filter_map_fst' (fun c => if isObj c then mr else lr)
+        (fun cl : Val × Loc => den env rest root cl.1) (fun c => den env rest root c) (fun _ => rfl)]
+    exact loop_node hB h _ (fun cl : Val × Loc => den env (rest ++ fns) root cl.1)
+      (fun cl : Val × Loc => den env rest root cl.1) _ i root
+      (fun x _ => ⟨x.1, some x.2, fun _ => rfl, rfl, rfl⟩) i hi st st' e hout hr hden
+  · rw [if_neg hc] at hr
+    have hcont : Val.containers cur = [] := by
+      cases cur <;> simp [Val.isContainer] at hc <;> simp [Val.containers]
+    rw [hcont]
+    exact imm_err hout ⟨[], by simp⟩ hr hi _ (by simp)
+
+theorem union_err (hB : FnBound fns B) (i : Info) (subs : List SubI) (hi : B < i.conn.utf8ByteSize)
+    (h : PreErr env fns B rest) : PreErr env fns B (.union i subs :: rest) := by
+  intro prev root cur aloc st st' e hout hr hden
+  cases cur with
+  | arr xs =>
+    simp only [List.cons_append, retrieve] at hr
+    simp only [List.cons_append, den] at hden ⊢
+    refine loop_node hB h _
+      (fun ix : Int => match (if ix < 0 then none else xs[ix.toNat]?) with
+        | some v => den env (rest ++ fns) root v
+        | none => [])
+      (fun ix : Int => match (if ix < 0 then none else xs[ix.toNat]?) with
+        | some v => den env rest root v
+        | none => [])
+      (subs.flatMap (fun s => subIndexes s xs.length)) i root (fun ix hix => ?_) i hi st st' e hout hr hden
+    obtain ⟨s, _, hs⟩ := List.mem_flatMap.mp hix
+    have hrg := subIndexes_range s xs.length ix hs
+    have hlt : ix.toNat < xs.length := by omega
+    have hget : (if ix < 0 then none else xs[ix.toNat]?) = some xs[ix.toNat] := by
+      rw [if_neg (by omega)]
+      exact List.getElem?_eq_getElem hlt
+    refine ⟨xs[ix.toNat], ext aloc (.idx ix.toNat), fun st0 => ?_, ?_, ?_⟩ <;> simp only [hget]
+  | null | bool _ | num _ | jnum _ | str _ | obj _ | opq _ _ =>
+    simp only [List.cons_append, retrieve] at hr
+    simp only [den]
+    exact imm_err hout ⟨[], by simp⟩ hr hi _ (by simp)
+
+end nodes
+
+def midInfo : MId → Info
+  | .key i _ => i
+  | .wild i => i
+
+/-- the infos a navigation node can put into an error -/
+def errInfos : N → List Info
+  | .multi i ids twin => i :: twin.toList ++ ids.map midInfo
+  | n => [n.info]
+
+section nodes2
+variable {env : Env} {fns : List N} {B : Nat} {rest : List N}
+
+theorem multi_err (hB : FnBound fns B) (i : Info) (ids : List MId) (twin : Option Info)
+    (hi : ∀ j ∈ errInfos (.multi i ids twin), B < j.conn.utf8ByteSize)
+    (h : PreErr env fns B rest) : PreErr env fns B (.multi i ids twin :: rest) := by
+  intro prev root cur aloc st st' e hout hr hden
+  have hi0 : B < i.conn.utf8ByteSize := hi i (by simp [errInfos])
+  have hobj : ∀ kvs : List (String × Val),
+      (do
+        let acc ← loopAcc (fun (id : MId) st =>
+            match id with
+            | .key ii k =>
+              (match Val.lookup k kvs with
+               | none => (.ok (st, none) : M (St × Option RtErr))
+               | some v => retrieve env (rest ++ fns) ii root v (ext aloc (.key k)) st)
+            | .wild ii => do
+              let acc ← loopAcc (fun (kv : String × Val) st => retrieve env (rest ++ fns) ii root kv.2 (ext aloc (.key kv.1)) st)
+                (sortKV kvs) (st, 0, none)
+              .ok (endGroup ii acc))
+          ids (st, 0, none)
+        (.ok (endGroup i acc) : M (St × Option RtErr))) = .ok (st', e) →
+      ids.flatMap (fun id =>
+        match id with
+        | .key _ k => (match Val.lookup k kvs with
+          | some v => den env (rest ++ fns) root v
+          | none => [])
+        | .wild _ => (sortKV kvs).flatMap (fun kv => den env (rest ++ fns) root kv.2)) = [] →
+      st'.out = [] ∧ (∃ t, st'.log = st.log ++ t) ∧
+      ∃ err, e = some err ∧ (Good env fns st'.log err ∨ B < tl err) ∧
+        (ids.flatMap (fun id =>
+          match id with
+          | .key _ k => (match Val.lookup k kvs with
+            | some v => den env rest root v
+            | none => [])
+          | .wild _ => (sortKV kvs).flatMap (fun kv => den env rest root kv.2)) ≠ [] → Good env fns st'.log err) := by
+    intro kvs hr hden
+    have hgrp := group_err (env := env) hB _ (fun id : MId => (match id with
+          | .key _ k => (match Val.lookup k kvs with
+            | some v => den env rest root v
+            | none => [])
+          | .wild _ => (sortKV kvs).flatMap (fun kv => den env rest root kv.2)) ≠ []) ids
+      ?_ i hi0 st st' e hout hr
+    · obtain ⟨a, b, err, he, h1, h2⟩ := hgrp
+      exact ⟨a, b, err, he, h1, fun hg => h2 (flatMap_ne_nil hg)⟩
+    · intro id hid
+      have hdid := List.flatMap_eq_nil_iff.mp hden id hid
+      have hii : B < (midInfo id).conn.utf8ByteSize :=
+        hi _ (by
+          show midInfo id ∈ i :: (twin.toList ++ ids.map midInfo)
+          exact List.mem_cons_of_mem _ (List.mem_append_right _ (List.mem_map_of_mem hid)))
+      intro st0 st1 e1 hout0 h1
+      cases id with
+      | key ii k =>
+        simp only [] at h1 hdid ⊢
+        cases hl : Val.lookup k kvs with
+        | none =>
+          rw [hl] at h1
+          simp only [Except.ok.injEq, Prod.mk.injEq] at h1
+          obtain ⟨h1a, h1b⟩ := h1
+          subst h1a
+          exact ⟨hout0, ⟨[], by simp⟩, Or.inl ⟨h1b.symm, by simp⟩⟩
+        | some v =>
+          rw [hl] at h1 hdid
+          simp only [] at hdid
+          obtain ⟨a, b, err, he, g1, g2⟩ := h ii root v _ st0 st1 e1 hout0 h1 hdid
+          exact ⟨a, b, Or.inr ⟨err, he, g1, g2⟩⟩
+      | wild ii =>
+        simp only [] at h1 hdid ⊢
+        obtain ⟨a, b, c⟩ := loop_node hB h _ (fun kv : String × Val => den env (rest ++ fns) root kv.2)
+          (fun kv : String × Val => den env rest root kv.2) (sortKV kvs) ii root
+          (fun x _ => ⟨x.2, ext aloc (.key x.1), fun _ => rfl, rfl, rfl⟩) ii hii st0 st1 e1 hout0 h1 hdid
+        exact ⟨a, b, Or.inr c⟩
+  cases cur with
+  | obj kvs =>
+    cases twin with
+    | none =>
+      simp only [List.cons_append, retrieve] at hr
+      simp only [List.cons_append, den] at hden ⊢
+      exact hobj kvs hr hden
+    | some ti =>
+      simp only [List.cons_append, retrieve] at hr
+      simp only [List.cons_append, den] at hden ⊢
+      exact hobj kvs hr hden
+  | arr xs =>
+    cases twin with
+    | none =>
+      simp only [List.cons_append, retrieve] at hr
+      simp only [den]
+      exact imm_err hout ⟨[], by simp⟩ hr hi0 _ (by simp)
+    | some ti =>
+      have hti : B < ti.conn.utf8ByteSize := hi ti (by simp [errInfos])
+      simp only [List.cons_append, retrieve] at hr
+      simp only [List.cons_append, den] at hden ⊢
+      have e1 : ∀ (g : Val → List Val), (ids.flatMap (fun _ => xs.zipIdx)).flatMap (fun xi : Val × Nat => g xi.1)
+          = ids.flatMap (fun _ => xs.flatMap g) := by
+        intro g
+        rw [List.flatMap_assoc]
+        simp only [zipIdx_flatMap_fst']
+      rw [← e1 (fun x => den env (rest ++ fns) root x)] at hden
+      rw [← e1 (fun x => den env rest root x)]
+      exact loop_node hB h _ (fun xi : Val × Nat => den env (rest ++ fns) root xi.1)
+        (fun xi : Val × Nat => den env rest root xi.1) _ ti root
+        (fun x _ => ⟨x.1, ext aloc (.idx x.2), fun _ => rfl, rfl, rfl⟩) ti hti st st' e hout hr hden
+  | null | bool _ | num _ | jnum _ | str _ | opq _ _ =>
+    cases twin <;>
+    · simp only [List.cons_append, retrieve] at hr
+      simp only [den]
+      exact imm_err hout ⟨[], by simp⟩ hr hi0 _ (by simp)
+
+end nodes2
+
+section nodes3
+variable {env : Env} {fns : List N} {B : Nat} {rest : List N}
+
+theorem filter_err (hB : FnBound fns B) (i : Info) (q : Q) (hi : B < i.conn.utf8ByteSize)
+    (hqwf : wfQ env q = true) (h : PreErr env fns B rest) : PreErr env fns B (.filter i q :: rest) := by
+  intro prev root cur aloc st st' e hout hr hden
+  simp only [List.cons_append, retrieve] at hr
+  simp only [List.cons_append, den] at hden ⊢
+  by_cases hc : cur.isContainer = true
+  · rw [if_pos hc] at hr
+    have hms := entriesSeg_snd cur
+    generalize entriesSeg cur = E at hms hr
+    obtain ⟨vl, st1, hq1, hsub, hvl, habs⟩ := computeQ_ok env q hqwf root (E.map (·.2)) st
+    have hlog1 := (computeQ_log env q hqwf root (E.map (·.2)) st st1 vl hq1).2
+    have hout1 : st1.out = [] := by rw [hsub.out, hout]
+    simp only [hq1, bind, Except.bind] at hr
+    rw [← hms, ← habs] at hden ⊢
+    cases hcells : vl.cells with
+    | nil => exact absurd hcells hvl.ne
+    | cons c0 cs =>
+      rw [hcells] at hr hden
+      simp only [] at hr
+      by_cases hshort : (!((c0 :: cs).length == (E.map (·.2)).length) && c0.isEmpty) = true
+      · rw [if_pos hshort] at hr
+        simp only [Bool.and_eq_true, Bool.not_eq_true', beq_eq_false_iff_ne, ne_eq] at hshort
+        rw [absVL_not_each_empty _ c0 cs _ rfl hshort.1 hshort.2, keepBy_all_false]
+        exact imm_err hout1 ⟨_, hlog1⟩ hr hi _ (by simp)
+      · rw [if_neg hshort] at hr
+        have hsel := filter_sel E c0 cs hshort
+        rw [← hsel, ← flatMap_snd' (fun v => den env (rest ++ fns) root v)] at hden
+        rw [← hsel, ← flatMap_snd' (fun v => den env rest root v)]
+        obtain ⟨a, ⟨t, ht⟩, c⟩ := loop_node hB h
+          (fun (sv : Seg × Val) st => retrieve env (rest ++ fns) i root sv.2 (ext aloc sv.1) st)
+          (fun sv : Seg × Val => den env (rest ++ fns) root sv.2)
+          (fun sv : Seg × Val => den env rest root sv.2) _ i root
+          (fun x _ => ⟨x.2, ext aloc x.1, fun _ => rfl, rfl, rfl⟩) i hi st1 st' e hout1 hr hden
+        exact ⟨a, ⟨_, by rw [ht, hlog1, List.append_assoc]⟩, c⟩
+  · rw [if_neg hc] at hr
+    have : entries cur = [] := by
+      cases cur <;> simp [Val.isContainer] at hc <;> rfl
+    rw [this]
+    exact imm_err hout ⟨[], by simp⟩ hr hi _ (by simp [keepBy])
+
+end nodes3
+
+/-! ### the induction over the prefix, and the top-level statements -/
+
+theorem wfChain_append' (env : Env) (a b : List N) (h : wfChain env (a ++ b) = true) :
+    wfChain env a = true ∧ wfChain env b = true := by
+  rw [wfChain_append, Bool.and_eq_true] at h
+  exact h
+
+theorem pre_err {env : Env} {fns : List N} {B : Nat} (hB : FnBound fns B) (hall : allFfn fns = true) :
+    ∀ (pre : List N), fnFree pre = true → wfChain env pre = true →
+      (∀ n ∈ pre, ∀ j ∈ errInfos n, B < j.conn.utf8ByteSize) → PreErr env fns B pre
+  | [], _, _, _ => by
+    have := ffns_err (env := env) (fns := fns) (B := B) fns (fun _ h => h) hall
+    exact this.weaken (fun _ _ _ => trivial)
+  | n :: rest, hfree, hwf, hinfo => by
+    simp only [fnFree, Bool.and_eq_true] at hfree
+    simp only [wfChain, Bool.and_eq_true] at hwf
+    have ih := pre_err hB hall rest hfree.2 hwf.2 (fun m hm => hinfo m (List.mem_cons_of_mem _ hm))
+    have hn := hinfo n List.mem_cons_self
+    cases n with
+    | root i => exact root_err i ih
+    | cur i => exact cur_err i ih
+    | child i k => exact child_err i k (hn i (by simp [errInfos, N.info])) ih
+    | wild i => exact wild_err hB i (hn i (by simp [errInfos, N.info])) ih
+    | multi i ids t => exact multi_err hB i ids t hn ih
+    | desc i a b => exact desc_err hB i a b (hn i (by simp [errInfos, N.info])) ih
+    | union i subs => exact union_err hB i subs (hn i (by simp [errInfos, N.info])) ih
+    | filter i q =>
+      have hq : wfQ env q = true := by simpa [wfN] using hwf.1
+      exact filter_err hB i q (hn i (by simp [errInfos, N.info])) hq ih
+    | ffn i name => simp [fnFreeN] at hfree
+    | afn i name param => simp [fnFreeN] at hfree
+
+/-- the run ended with the failure of a function node of `fns`, and a failed call of that
+    function is in the log -/
+def FailedFn (env : Env) (fns : List N) (o : Outcome × St) : Prop :=
+  ∃ n ∈ fns, o.1 = .err (.func n.info) ∧ ∃ c ∈ o.2.log, callOf n c = true ∧ failedCall env c = true
+
+theorem all_failed_bound (env : Env) (pre fns : List N) (B : Nat)
+    (hwf : wfChain env (pre ++ fns) = true) (hfree : fnFree pre = true) (hall : allFfn fns = true)
+    (hB : FnBound fns B) (hinfo : ∀ n ∈ pre, ∀ j ∈ errInfos n, B < j.conn.utf8ByteSize)
+    (d : Val) (hsel : den env pre d d ≠ []) (hnone : den env (pre ++ fns) d d = []) :
+    FailedFn env fns (Impl.run env (pre ++ fns) d) := by
+  obtain ⟨st', e, h1, _⟩ := retrieve_ok env (pre ++ fns) hwf default d d (some []) {}
+  have hpre := pre_err (env := env) hB hall pre hfree (wfChain_append' env pre fns hwf).1 hinfo
+  obtain ⟨_, _, err, he, _, hg⟩ := hpre default d d (some []) {} st' e rfl h1 hnone
+  subst he
+  obtain ⟨n, hn, herr, c, hc, h2, h3⟩ := hg hsel
+  refine ⟨n, hn, ?_, c, ?_, h2, h3⟩
+  · simp only [Impl.run, h1, herr]
+  · simpa only [Impl.run, h1] using hc
+
+/-- the longest connected text among the function nodes -/
+def maxConn : List N → Nat
+  | [] => 0
+  | n :: rest => max n.info.conn.utf8ByteSize (maxConn rest)
+
+theorem le_maxConn : ∀ (fns : List N), ∀ m ∈ fns, m.info.conn.utf8ByteSize ≤ maxConn fns
+  | [], _, h => by simp at h
+  | n :: rest, m, h => by
+    simp only [maxConn]
+    rcases List.mem_cons.mp h with rfl | h
+    · exact Nat.le_max_left _ _
+    · exact Nat.le_trans (le_maxConn rest m h) (Nat.le_max_right _ _)
+
+theorem maxConn_mem : ∀ (fns : List N), fns ≠ [] → ∃ m ∈ fns, maxConn fns = m.info.conn.utf8ByteSize
+  | [], h => absurd rfl h
+  | [n], _ => ⟨n, List.mem_cons_self, by simp [maxConn]⟩
+  | n :: n' :: rest, _ => by
+    obtain ⟨m, hm, he⟩ := maxConn_mem (n' :: rest) (by simp)
+    by_cases hle : n.info.conn.utf8ByteSize ≤ maxConn (n' :: rest)
+    · exact ⟨m, List.mem_cons_of_mem _ hm, by rw [maxConn, Nat.max_eq_right hle, he]⟩
+    · exact ⟨n, List.mem_cons_self, by rw [maxConn, Nat.max_eq_left (by omega)]⟩
+
+/-- how `Parse` lays out connected texts: every function's is non-empty and shorter than
+    that of every navigation node before it -/
+def ConnSep (pre fns : List N) : Prop :=
+  (∀ m ∈ fns, 0 < m.info.conn.utf8ByteSize) ∧
+  ∀ n ∈ pre, ∀ j ∈ errInfos n, ∀ m ∈ fns, m.info.conn.utf8ByteSize < j.conn.utf8ByteSize
+
+theorem all_failed_pre (env : Env) (pre fns : List N)
+    (hwf : wfChain env (pre ++ fns) = true) (hfree : fnFree pre = true) (hall : allFfn fns = true)
+    (hsep : ConnSep pre fns)
+    (d : Val) (hsel : den env pre d d ≠ []) (hnone : den env (pre ++ fns) d d = []) :
+    FailedFn env fns (Impl.run env (pre ++ fns) d) := by
+  by_cases hfns : fns = []
+  · subst hfns
+    rw [List.append_nil] at hnone
+    exact absurd hnone hsel
+  · obtain ⟨m, hm, hmax⟩ := maxConn_mem fns hfns
+    refine all_failed_bound env pre fns (maxConn fns) hwf hfree hall
+      (fun n hn => ⟨hsep.1 n hn, le_maxConn fns n hn⟩) (fun n hn j hj => ?_) d hsel hnone
+    rw [hmax]
+    exact hsep.2 n hn j hj m hm
+
+def outcomeOf (e : Option RtErr) (st' : St) : Outcome :=
+  match e with
+  | some err => .err err
+  | none => .ok st'.out
+
+theorem run_of_retrieve {env : Env} {ch : List N} {d : Val} {st' : St} {e : Option RtErr}
+    (h : retrieve env ch default d d (some []) {} = .ok (st', e)) :
+    Impl.run env ch d = (outcomeOf e st', st') := by
+  simp only [Impl.run, h]
+  cases e <;> rfl
+
+/-- an aggregate first: no loop surrounds the functions, so no assumption on texts is needed -/
+theorem all_failed_agg (env : Env) (pre ffns : List N) (i : Info) (a : String)
+    (hwf : wfChain env (.afn i a pre :: ffns) = true) (hall : allFfn ffns = true)
+    (d : Val) (hsel : den env pre d d ≠ []) (hnone : den env (.afn i a pre :: ffns) d d = []) :
+    FailedFn env (.afn i a pre :: ffns) (Impl.run env (.afn i a pre :: ffns) d) := by
+  have hwf0 := hwf
+  simp only [wfChain, wfN, Bool.and_eq_true] at hwf
+  obtain ⟨⟨hreg, hwp⟩, hwr⟩ := hwf
+  obtain ⟨st', e, h1, _⟩ := retrieve_ok env (.afn i a pre :: ffns) hwf0 default d d (some []) {}
+  have hrun := run_of_retrieve h1
+  obtain ⟨s1, e1, hp1, hp2⟩ := retrieve_ok env pre hwp i d d (some []) ({} : St).sub
+  have hvals := sub_out_vals {} s1 _ hp2.ext
+  have he1 : e1 = none := hp2.sel_ok hsel
+  subst he1
+  cases hout : s1.out with
+  | nil => exact absurd hout (hp2.ok_nonempty rfl)
+  | cons x xs =>
+    cases hf : env.afn a with
+    | none => simp [hf] at hreg
+    | some f =>
+      rw [hout] at hvals
+      simp only [List.map_cons] at hvals
+      simp only [den, ← hvals, hf] at hnone
+      simp only [retrieve, hp1, bind, Except.bind, hout, hf, List.map_cons] at h1
+      cases hfa : f (aggArgs (chainVg pre) x.val (x.val :: List.map Res.val xs)) with
+      | none =>
+        rw [hfa] at h1
+        simp only [Except.ok.injEq, Prod.mk.injEq] at h1
+        obtain ⟨h1a, h1b⟩ := h1
+        rw [hrun, ← h1b, ← h1a]
+        exact ⟨.afn i a pre, List.mem_cons_self, rfl,
+          .afn a (aggArgs (chainVg pre) x.val (x.val :: List.map Res.val xs)), by simp [St.call], by simp [callOf],
+          by simp [failedCall, hf, hfa]⟩
+      | some r =>
+        rw [hfa] at h1 hnone
+        simp only [] at h1 hnone
+        obtain ⟨_, _, err, he, _, hg⟩ := ffns_err (env := env) (fns := .afn i a pre :: ffns) (B := 0) ffns
+          (fun n hn => List.mem_cons_of_mem _ hn) hall i d r none _ st' e rfl h1 hnone
+        subst he
+        obtain ⟨n, hn, herr, c, hc, h2, h3⟩ := hg trivial
+        rw [hrun]
+        exact ⟨n, hn, by rw [herr]; rfl, c, hc, h2, h3⟩
+
+/-- without any assumption on texts: some logged call returned an error -/
+theorem ffns_some_failed (env : Env) : ∀ (fns : List N), allFfn fns = true → wfChain env fns = true →
+    ∀ root v, den env fns root v = [] → ∃ c ∈ calls env fns root v, failedCall env c = true
+  | [], _, _, root, v, h => by simp [den] at h
+  | .ffn i name :: rest, hall, hwf, root, v, h => by
+    simp only [allFfn] at hall
+    simp only [wfChain, wfN, Bool.and_eq_true] at hwf
+    cases hf : env.ffn name with
+    | none => simp [hf] at hwf
+    | some f =>
+      rw [den_ffn_one env i name f hf] at h
+      rw [calls_ffn_one env i name f hf]
+      cases hfv : f v with
+      | none => exact ⟨.ffn name v, List.mem_cons_self, by simp [failedCall, hf, hfv]⟩
+      | some r =>
+        rw [hfv] at h
+        obtain ⟨c, hc, hfc⟩ := ffns_some_failed env rest hall hwf.2 root r h
+        exact ⟨c, List.mem_cons_of_mem _ hc, hfc⟩
+  | .root _ :: _, hall, _, _, _, _ | .cur _ :: _, hall, _, _, _, _ | .child _ _ :: _, hall, _, _, _, _
+  | .wild _ :: _, hall, _, _, _, _ | .multi _ _ _ :: _, hall, _, _, _, _ | .desc _ _ _ :: _, hall, _, _, _, _
+  | .union _ _ :: _, hall, _, _, _, _ | .filter _ _ :: _, hall, _, _, _, _ | .afn _ _ _ :: _, hall, _, _, _, _ => by
+    simp [allFfn] at hall
+
+theorem some_failed (env : Env) (pre fns : List N)
+    (hwf : wfChain env (pre ++ fns) = true) (hfree : fnFree pre = true) (hall : allFfn fns = true)
+    (d : Val) (hsel : den env pre d d ≠ []) (hnone : den env (pre ++ fns) d d = []) :
+    ∃ c ∈ (Impl.run env (pre ++ fns) d).2.log, failedCall env c = true := by
+  rw [run_log env _ hwf, calls_append env fns pre hfree]
+  rw [BD.den_append] at hnone
+  obtain ⟨v, hv, _⟩ : ∃ v ∈ den env pre d d, True := by
+    cases hd : den env pre d d with
+    | nil => exact absurd hd hsel
+    | cons a b => exact ⟨a, List.mem_cons_self, trivial⟩
+  have hv0 := List.flatMap_eq_nil_iff.mp hnone v hv
+  obtain ⟨c, hc, hfc⟩ := ffns_some_failed env fns hall (wfChain_append' env pre fns hwf).2 d v hv0
+  exact ⟨c, List.mem_flatMap.mpr ⟨v, hv, hc⟩, hfc⟩
+
+/-- `ConnSep`, decidable -/
+def connSepB (pre fns : List N) : Bool :=
+  fns.all (fun m => decide (0 < m.info.conn.utf8ByteSize)) &&
+  pre.all (fun n => (errInfos n).all (fun j => fns.all (fun m =>
+    decide (m.info.conn.utf8ByteSize < j.conn.utf8ByteSize))))
+
+theorem connSepB_sound {pre fns : List N} (h : connSepB pre fns = true) : ConnSep pre fns := by
+  simp only [connSepB, Bool.and_eq_true, List.all_eq_true, decide_eq_true_eq] at h
+  exact ⟨h.1, h.2⟩
 
 end CE
 end JPV
